@@ -395,7 +395,23 @@ def summarize(results):
         try:
             with open(r['impl'], errors='replace') as f:
                 op = None
+                paid_subs = {}
                 for line in f:
+                    if line.startswith('E '):
+                        dom = tot.setdefault('domain', {})
+                        for key, pat in (('session_settlements', 'EventPayForSession'), ('hourly_payouts', 'EventPayForPayout'), ('refunds', 'EventRefund'),
+                                         ('plan_payments', 'EventPayForPlan'), ('allocations', 'EventAllocate'), ('swaps', 'swap.v1.EventSwap')):
+                            if pat in line:
+                                dom[key] = dom.get(key, 0) + 1
+                        if 'EventPayForSession' in line:
+                            if 'payment=0' not in line:
+                                dom['session_settlements_nonzero'] = dom.get('session_settlements_nonzero', 0) + 1
+                            msub = re.search(r'subscription_id=(\d+)', line)
+                            if msub:
+                                paid_subs[msub.group(1)] = paid_subs.get(msub.group(1), 0) + 1
+                    elif line.startswith('R accept') and op in ('reimport', 'export', 'gov'):
+                        dom = tot.setdefault('domain', {})
+                        dom[op + '_accepted'] = dom.get(op + '_accepted', 0) + 1
                     if line.startswith('> '):
                         parts = line[2:].split()
                         op = parts[0] + (':' + parts[1] if parts[0] in ('tx', 'query') and len(parts) > 1 else '')
@@ -406,6 +422,8 @@ def summarize(results):
                         if len(samples) < 6 and line.startswith('R accept') and op.startswith('tx'):
                             samples.append(op)
                         op = None
+                dom = tot.setdefault('domain', {})
+                dom['subscriptions_with_2plus_settled_sessions'] = dom.get('subscriptions_with_2plus_settled_sessions', 0) + sum(1 for v in paid_subs.values() if v > 1)
         except OSError:
             pass
     tot['distinct'] = len(distinct)
@@ -670,6 +688,7 @@ def check_property(prop, tier, seed):
         'correspondence': {'histories': corr['totals']['histories'], 'ops': corr['totals']['ops'], 'accept': corr['totals']['accept'],
                            'reject': corr['totals']['reject'], 'halt': corr['totals']['halt'], 'op_kinds': corr['totals']['op_kinds'],
                            'mismatches_total': len(corr['mismatches']), 'mismatches_in_projection': len(rel),
+                           'domain_events_observed_on_the_implementation': corr['totals'].get('domain', {}),
                            'monitors_of_property': P.get('monitors', []),
                            'implementation_states_loaded_and_monitored': corr['totals'].get('impl_states_monitored', 0),
                            'monitor_hits_total': len(corr['monitor_hits']),
